@@ -28,7 +28,8 @@ Section More.
     closed st = false -> strm st = None -> xlookup n (xref st) <> None ->
     step st (Put n g o big) = Err Other.
   Proof.
-    intros Hc Hs Hx. unfold Writer.step, Writer.put. rewrite Hc, Hs.
+    intros Hc Hs Hx. unfold Writer.step. destruct (accepts _ _ _); [|reflexivity].
+    unfold Writer.step0, Writer.put. rewrite Hc, Hs.
     destruct (xlookup n (xref st)) eqn:E; [|contradiction].
     destruct o.
     - unfold Writer.put_obj, set_xref. rewrite E. reflexivity.
@@ -51,7 +52,7 @@ Section More.
     strm st = None -> step st (Put n g (PObj o) big) = Ok st' ->
     forall g' o' big', step st' (Put n g' o' big') = Err Other.
   Proof.
-    intros Hs H g' o' big'. unfold Writer.step in H. destruct (closed st) eqn:Hc; [discriminate|].
+    intros Hs H g' o' big'. apply step_ok in H. unfold Writer.step0 in H. destruct (closed st) eqn:Hc; [discriminate|].
     unfold Writer.put in H. rewrite Hs in H.
     destruct (put_obj_xref _ _ _ _ _ H) as [Hx [Ex [_ [Es Ec]]]].
     apply dup_rejected_lemma; [congruence | congruence|].
